@@ -44,6 +44,20 @@ def run_case(cs, ctx):
                 ctx.cov('lecturer_with_several_used_projects')
             if spec['na'] == 3:
                 ctx.cov('three_agent')
+    # a second round of getter calls must describe the matching just as well
+    if f.get('status') == 'Optimal' and cs % 3 == 0 and r['ex']['solver'] is not None and r['ex']['exc'] is None:
+        s = r['ex']['solver']
+        try:
+            ex2 = dict(r['ex'], short=s.get_results_short(), long=s.get_results_long())
+            cnt = {}
+            from .. import engine as en
+            f2, _ = en.judge_lp(ex2, r['ref'], counters=cnt)
+            ctx.cnt('second_round_texts_judged')
+            for x in f2:
+                if x['prop'] == 'C11':
+                    ctx.finding(dict(x, monitor=x['monitor'] + '_second_call', msg='second call of the getters: ' + x['msg']), r['case'])
+        except Exception as e:
+            ctx.cnt('second_round_unobservable')
     ctx.sample(lc.brief(r), cap=2)
 
 
